@@ -44,7 +44,8 @@ func c11Owned(w *storWorld) map[string]map[string]string {
 		put(c.Address, "collateral", fmt.Sprint(c.Amount))
 	}
 	for _, f := range w.c.App.OracleKeeper.GetAllFeeds(w.f.Ctx) {
-		put(f.Owner, "feed:"+f.Name, f.Data)
+		f := f
+		put(f.Owner, "feed:"+f.Name, string(cdc.MustMarshal(&f))) // the whole record: data, owner and time of the last update
 	}
 	for _, kv := range w.f.DumpPrefix(notiftypes.StoreKey, []byte(notiftypes.NotificationsKeyPrefix)) {
 		key := string(kv.K[len(notiftypes.NotificationsKeyPrefix):])
@@ -430,6 +431,13 @@ func TestC11(t *testing.T) {
 					}
 				}
 				m = del
+			}
+			if feeds := w.c.App.OracleKeeper.GetAllFeeds(w.f.Ctx); len(feeds) > 0 && rapid.IntRange(0, 9).Draw(rt, "feedReplay") == 0 {
+				// somebody replays the owner's last update of a feed word for word in a later block (or the owner repeats it)
+				fd := feeds[rapid.IntRange(0, len(feeds)-1).Draw(rt, "whichFeed")]
+				w.f.SetBlock(w.f.Height()+1, w.f.Time().Add(6*time.Second))
+				m = &oracletypes.MsgUpdateFeed{Creator: accs[rapid.IntRange(0, 4).Draw(rt, "replayer")].Bech, Name: fd.Name, Data: fd.Data}
+				u = sdk.MsgTypeURL(m)
 			}
 			signer := reflect.ValueOf(m).Elem().FieldByName("Creator").String()
 			before := c11Owned(w)
